@@ -21,7 +21,7 @@ pub fn spec() -> Spec {
                Circles: radius 1e-2..1e2, centre offset <= 1e3, arcs 60..360 degrees, 5-200 points, guesses within +-20% r, noise <= 1% r; triangles with min angle >= 5 degrees and size >= 3e-2 plus exactly collinear triples; RANSAC with >= 50% exact inliers + uniform outliers. \
                Non-trivial = a fit with more samples than coefficients (circle: >= 6 points); distinct = hash of the data bits.",
         assumptions: &[
-            "tolerances carry the condition number of the weighted Gram matrix computed by the oracle (SVD); cases with cond > 1e7 are skipped and counted; the bound is 1e6*u*cond (the library inverts the Gram matrix)",
+            "tolerances carry the condition number of the weighted Gram matrix computed by the oracle (SVD); cases with cond > 1e6 are skipped and counted; the bound is 1e6*u*cond (the library inverts the Gram matrix)",
             "circle fit, arbitrary data: |J^T r| <= 1e-4 |J||r| + 1e3 u (r+offset) sqrt(n) (the solver stops on a relative objective reduction of 30 eps, which bounds the gradient ratio by about 1e-6 times the conditioning of the arc); Gaussian mode judged on exact samples only",
             "three-point circle: tolerance 1e3*u*(offset^2+size^2)/(size*sin(min angle)) + 1e-9*r (the library squares absolute coordinates)",
         ],
@@ -139,7 +139,7 @@ fn run_poly(c: &mut Ctx) {
     let sv = g.clone().svd(false, false).singular_values;
     let (smax, smin) = (sv.max(), sv.min());
     let cond = if smin > 0.0 { smax / smin } else { f64::INFINITY };
-    if !(cond < 1e7) {
+    if !(cond < 1e6) {
         c.skip("Polynomial::least_squares :: residual orthogonal to every monomial");
         return;
     }
